@@ -2,6 +2,7 @@ package gw
 
 import (
 	"bytes"
+	"errors"
 	"fmt"
 	"net/http"
 	"net/http/httptest"
@@ -54,10 +55,11 @@ func (l logger) Trace(s string) {
 
 // Client is one WebSocket client of the gateway.
 type Client struct {
-	Label  string
-	CID    string
-	ws     *websocket.Conn
-	closed bool
+	Label      string
+	CID        string
+	ws         *websocket.Conn
+	closed     bool
+	readClosed chan struct{} // closed when the gateway closed the socket (or the client did)
 }
 
 // World is one running gateway with its mock messaging system and clients.
@@ -263,7 +265,7 @@ func (w *World) Connect(h http.Header) (*Client, error) {
 	w.S.mu.Lock()
 	cid := w.S.conns[before]
 	w.S.mu.Unlock()
-	c := &Client{Label: fmt.Sprintf("c%d", len(w.Clients)), CID: cid, ws: ws}
+	c := &Client{Label: fmt.Sprintf("c%d", len(w.Clients)), CID: cid, ws: ws, readClosed: make(chan struct{})}
 	w.mu.Lock()
 	w.labels[cid] = c.Label
 	w.mu.Unlock()
@@ -271,6 +273,7 @@ func (w *World) Connect(h http.Header) (*Client, error) {
 	go func() {
 		for {
 			if _, _, err := ws.ReadMessage(); err != nil {
+				close(c.readClosed)
 				return
 			}
 		}
@@ -485,4 +488,174 @@ func (w *World) Close() {
 	case <-time.After(8 * time.Second):
 	}
 	verifhook.S = nil
+}
+
+// StopResult is what the harness observed around a Stop or a loss of the messaging connection.
+type StopResult struct {
+	Returned      bool   // the stop channel reported within the bound
+	ElapsedMS     int64
+	Cause         string // the error reported on the stop channel
+	ClientsClosed bool   // every open client socket was closed by the gateway
+	ConnRefused   bool   // a new WebSocket connection was refused afterwards
+	HTTPStatus    int    // status of an HTTP GET afterwards
+	Restarted     bool   // Start succeeded again and a client could connect
+	SecondStop    bool   // ... and Stop completed again
+	DuringRefused bool   // while Stop was waiting for connections: a new WebSocket connection was refused
+	DuringHTTP    int    // ... and an HTTP GET was answered with this status
+}
+
+// StopNow injects Stop (kind "stop") or the loss of the messaging connection (kind "mqloss") with whatever
+// work is in flight. The scheduler is switched to free-running mode first: everything parked is released.
+func (w *World) StopNow(kind string) StopResult {
+	var r StopResult
+	live := 0
+	for _, c := range w.Clients {
+		if !c.closed {
+			live++
+		}
+	}
+	stopCh := w.Serv.StopChannel()
+	start := time.Now()
+	cause := "injected-" + kind
+	if kind == "mqloss" {
+		w.MQ.mu.Lock()
+		h := w.MQ.closed
+		w.MQ.mu.Unlock()
+		if h != nil {
+			go h(errors.New(cause))
+		}
+	} else {
+		go w.Serv.Stop(errors.New(cause))
+	}
+	r.DuringRefused, r.DuringHTTP = true, 503
+	if live > 0 {
+		// the connection workers are still gated, so Stop is now waiting for the connections to be disposed:
+		// probe the "stopping" window before releasing them
+		for i := 0; i < 400 && !w.Serv.VerifStopping(); i++ {
+			time.Sleep(5 * time.Millisecond)
+		}
+		dialed := make(chan *websocket.Conn, 1)
+		go func() {
+			ws2, _, err := wstest.NewDialer(w.Serv.GetWSHandlerFunc()).Dial("ws://example.org/", nil)
+			if err != nil {
+				dialed <- nil
+				return
+			}
+			dialed <- ws2
+		}()
+		select {
+		case ws2 := <-dialed:
+			if ws2 != nil {
+				r.DuringRefused = false
+				go ws2.Close()
+			}
+		case <-time.After(300 * time.Millisecond):
+		}
+		req, _ := http.NewRequest("GET", "/api/test/r0", nil)
+		req.RequestURI = "/api/test/r0"
+		rr := httptest.NewRecorder()
+		hd := make(chan struct{})
+		go func() { w.Serv.ServeHTTP(rr, req); close(hd) }()
+		select {
+		case <-hd:
+			r.DuringHTTP = rr.Code
+		case <-time.After(300 * time.Millisecond):
+			r.DuringHTTP = -1 // accepted and waiting for a service: not refused
+		}
+	}
+	w.S.mu.Lock()
+	w.S.Free = true
+	ws := w.S.parked
+	w.S.parked = map[string]*waiter{}
+	w.S.mu.Unlock()
+	for _, p := range ws {
+		close(p.ch)
+	}
+	select {
+	case err := <-stopCh:
+		r.Returned = true
+		if err != nil {
+			r.Cause = err.Error()
+		}
+	case <-time.After(12 * time.Second):
+	}
+	r.ElapsedMS = time.Since(start).Milliseconds()
+	r.ClientsClosed = true
+	for _, c := range w.Clients {
+		if c.closed {
+			continue
+		}
+		select {
+		case <-c.readClosed:
+		case <-time.After(2 * time.Second):
+			r.ClientsClosed = false
+		}
+		c.closed = true
+	}
+	// afterwards: no new connections, HTTP refused
+	// (the handler returns without writing a response when the service is stopped: over the in-memory pipe the
+	// dialer then waits for ever, so the attempt is given a deadline; not upgraded = refused)
+	dialed := make(chan *websocket.Conn, 1)
+	go func() {
+		d := wstest.NewDialer(w.Serv.GetWSHandlerFunc())
+		ws2, _, err := d.Dial("ws://example.org/", nil)
+		if err != nil {
+			dialed <- nil
+			return
+		}
+		dialed <- ws2
+	}()
+	select {
+	case ws2 := <-dialed:
+		if ws2 == nil {
+			r.ConnRefused = true
+		} else {
+			ws2.Close()
+		}
+	case <-time.After(400 * time.Millisecond):
+		r.ConnRefused = true
+	}
+	req, _ := http.NewRequest("GET", "/api/test/r0", nil)
+	req.RequestURI = "/api/test/r0"
+	rr := httptest.NewRecorder()
+	done := make(chan struct{})
+	go func() { w.Serv.ServeHTTP(rr, req); close(done) }()
+	select {
+	case <-done:
+		r.HTTPStatus = rr.Code
+	case <-time.After(2 * time.Second):
+		r.HTTPStatus = -1
+	}
+	// Start/Stop may be repeated on the same service
+	if r.Returned {
+		if err := w.Serv.Start(); err == nil {
+			redial := make(chan *websocket.Conn, 1)
+			go func() {
+				ws3, _, err := wstest.NewDialer(w.Serv.GetWSHandlerFunc()).Dial("ws://example.org/", nil)
+				if err != nil {
+					redial <- nil
+					return
+				}
+				redial <- ws3
+			}()
+			select {
+			case ws3 := <-redial:
+				if ws3 != nil {
+					r.Restarted = true
+					ws3.Close()
+				}
+			case <-time.After(2 * time.Second):
+			}
+			st := w.Serv.StopChannel()
+			go w.Serv.Stop(nil)
+			select {
+			case <-st:
+				r.SecondStop = true
+			case <-time.After(12 * time.Second):
+			}
+		}
+	}
+	w.rec(Ev{Kind: "stop", Subj: kind, Text: fmt.Sprintf("returned=%t cause=%t elapsed_ok=%t clients_closed=%t refused=%t http=%d restarted=%t second_stop=%t during_refused=%t during_http=%d",
+		r.Returned, r.Cause == cause, r.ElapsedMS < 11000, r.ClientsClosed, r.ConnRefused, r.HTTPStatus, r.Restarted, r.SecondStop, r.DuringRefused, r.DuringHTTP)})
+	return r
 }
